@@ -7,7 +7,7 @@ file boundaries). Every chunk match consists of whole lines starting at its repo
 its ranges, reports for each range a line and a character column that agree with the byte offset, and never overlaps
 another chunk of the same file; a file-name match reports the file name as its text.
 -/
-import ZoektModel.C03.Lemmas7
+import ZoektModel.C03.Lemmas8
 namespace ZoektModel.C03
 open ZoektModel
 
@@ -167,24 +167,28 @@ theorem C03_checkChunks (data name : Bytes) (ctx : Nat) (ms : List Cand) (g : Ga
         simp [(h1 cm hcm).1]
       rw [this]; exact h2
 
-/-- **C03 (line mode) as evaluated by the driver**, without the two line-count clauses of the context (the context
-    *text* is proved to be the bytes between the neighbouring line starts) -/
-theorem C03_checkLines_partial (data name : Bytes) (ctx : Nat) (ms : List Cand) (g : Gathered data name ms) :
-    ∃ lms, fillMatches data name ctx ms = some lms ∧
-      ∀ lm ∈ lms, if lm.fileName then fileNameLineOk name lm = true
-                  else (lineCoreOk data lm = true ∧ lineContextOk data ctx lm = true) := by
+/-- **`context_exact_count`**: a line match whose location and text clauses hold has exactly `min(ctx, lines available)`
+    lines of context before and after it — fewer than requested only at the file boundaries -/
+theorem context_exact_count (data : Bytes) (ctx : Nat) (lm : LineMatch)
+    (hcore : lineCoreOk data lm = true) (hctx : lineContextOk data ctx lm = true) :
+    lineContextCountOk data ctx lm = true := count_of_core_context data ctx lm hcore hctx
+
+/-- **C03 (line mode) as evaluated by the driver on the implementation's output**: the whole line half of the
+    statement holds of `fillMatches` for every document, context size and gathered candidate list. -/
+theorem C03_checkLines (data name : Bytes) (ctx : Nat) (ms : List Cand) (g : Gathered data name ms) :
+    ∃ lms, fillMatches data name ctx ms = some lms ∧ checkLines data name ctx lms = true := by
   by_cases hc : ms.filter (fun c => !c.fileName) = []
   · obtain ⟨h1, h2⟩ := filename_match_text data name ctx ms g hc
     refine ⟨_, h1, ?_⟩
-    intro lm hlm
-    simp only [List.mem_singleton] at hlm
-    subst hlm
+    simp only [checkLines, List.all_cons, List.all_nil, Bool.and_true]
     simpa [fileNameLine] using h2
   · obtain ⟨lms, h1, h2, _⟩ := line_fields_agree data name ctx ms g hc
     refine ⟨lms, h1, ?_⟩
+    simp only [checkLines, List.all_eq_true]
     intro lm hlm
     have := h2 lm hlm
-    simp [this.1, this.2.1, this.2.2]
+    simp only [this.1, Bool.false_eq_true, if_false, lineMatchOk, this.2.1, this.2.2,
+      count_of_core_context data ctx lm this.2.1 this.2.2, Bool.and_self]
 
 /-- the tie to C02: whatever the atoms' (in-bounds) matches are, the output of `gatherMatches` satisfies the
     preconditions (`Gathered`) under which the theorems of this file are stated -/
@@ -218,14 +222,13 @@ theorem C03_search_chunks (data name : Bytes) (ctx : Nat) (cands : List Cand)
   · exact hal c h hc.2
   · rw [hc.2] at h; exact absurd h (by decide)
 
-/-- **C03, line mode, end to end over the reporting pipeline** `gatherMatches → fillMatches` (without the two
-    line-count clauses of the context) -/
-theorem C03_search_lines_partial (data name : Bytes) (ctx : Nat) (cands : List Cand)
+/-- **C03, line mode, end to end over the reporting pipeline** `gatherMatches → fillMatches`: for every document, name,
+    context size and every collection of in-bounds atom matches, the search reports line matches (no panic) that satisfy
+    the whole line half of the statement. -/
+theorem C03_search_lines (data name : Bytes) (ctx : Nat) (cands : List Cand)
     (hb : ∀ c ∈ cands, c.off + c.sz ≤ (if c.fileName then name.length else data.length)) :
-    ∃ lms, C02.reportLines data name ctx cands = some lms ∧
-      ∀ lm ∈ lms, if lm.fileName then fileNameLineOk name lm = true
-                  else (lineCoreOk data lm = true ∧ lineContextOk data ctx lm = true) :=
-  C03_checkLines_partial data name ctx _ (gathered_of_gather data name cands hb)
+    ∃ lms, C02.reportLines data name ctx cands = some lms ∧ checkLines data name ctx lms = true :=
+  C03_checkLines data name ctx _ (gathered_of_gather data name cands hb)
 
 /-! non-vacuity: "ab\ncd\n" with a file-name candidate, a candidate on line 1 and one spanning the newline -/
 def exData : Bytes := [97, 98, 10, 99, 100, 10]
